@@ -58,10 +58,11 @@ func runC08(c *eng.Ctx, tier string) {
 	// R-C08-1
 	var idCall, decCall *ssa.Call
 	gates := map[string]bool{}
-	for _, cond := range eng.FactsAt(fnCall) {
+	// (a gate may sit in a boolean helper whose true answer is tested here)
+	for _, cond := range eng.FactsX(fnCall) {
 		if op, x, y, isCmp := cond.Cmp(); isCmp && op == token.EQL {
 			if s, isC := eng.ConstString(y); isC {
-				if fr, base, isF := eng.LoadedField(x); isF && fr.Name == "Method" && eng.Origin(base) == ssa.Value(rP) && s == "POST" {
+				if fr, base, isF := eng.LoadedField(x); isF && fr.Name == "Method" && eng.OriginX(base) == eng.OriginX(rP) && s == "POST" {
 					gates["method"] = true
 				}
 				if h, isH := headerGet(x); isH {
@@ -108,7 +109,7 @@ func runC08(c *eng.Ctx, tier string) {
 		{"method", "r.Method == \"POST\""}, {"content-type", "Content-Type == \"application/json\""}, {"no-browsers", "Sec-X-Tailscale-No-Browsers == \"setec\""},
 		{"identity", "nil error of s.getIdentity(r)"}, {"decode", "nil error of decoding r.Body into the request value passed to the handler"},
 	} {
-		c.Check(gates[g.k], "R-C08-1", sj, fnCall.Pos(), "gate before the handler: "+g.want, "the handler invocation is edge-dominated by "+g.want, "holding: "+eng.FactsString(fnCall))
+		c.Check(gates[g.k], "R-C08-1", sj, fnCall.Pos(), "gate before the handler: "+g.want, "the handler invocation is edge-dominated by "+g.want, "holding: "+factsStr(eng.FactsX(fnCall)))
 	}
 	if idCall != nil && decCall != nil {
 		okOrder := false
@@ -149,6 +150,35 @@ func runC08(c *eng.Ctx, tier string) {
 		hasErr := false
 		for _, in := range r.Block().Instrs {
 			if er, ok := errReplyIn(replies, in); ok && er.Text != nil {
+				hasErr = true
+			}
+		}
+		// or the refusal was answered inside the boolean gate helper whose
+		// negative answer leads here: every path of it that answers so has
+		// passed an error reply
+		for _, cond := range eng.FactsAt(r) {
+			call, _, truth, isCall := cond.BoolCall()
+			if !isCall || !eng.IsHelper(sj, eng.Callee(&call.Call)) {
+				continue
+			}
+			h := eng.Callee(&call.Call)
+			answered := true
+			found := false
+			for _, hr := range eng.Returns(h) {
+				k, isC := eng.Origin(eng.RetVals(hr)[0]).(*ssa.Const)
+				if isC && k.Value != nil && (k.Value.String() == "true") != truth {
+					continue
+				}
+				found = true
+				hit, _ := eng.Search(h, nil, nil, func(x ssa.Instruction) bool {
+					er, ok := errReplyIn(replies, x)
+					return ok && er.Text != nil
+				}, func(x ssa.Instruction) bool { return x == ssa.Instruction(hr) })
+				if hit != nil {
+					answered = false
+				}
+			}
+			if found && answered {
 				hasErr = true
 			}
 		}
@@ -293,7 +323,8 @@ func c08Routes(c *eng.Ctx, sj, getIdentity *ssa.Function) {
 		return
 	}
 	n := 0
-	eng.Instrs(newFn, func(in ssa.Instruction) {
+	// (registration may be done by a helper of New)
+	eng.InstrsDeep(newFn, func(_ *ssa.Function, in ssa.Instruction) {
 		call, ok := in.(*ssa.Call)
 		if !ok || !(eng.CalleeIs(&call.Call, "net/http", "*ServeMux.HandleFunc") || eng.CalleeIs(&call.Call, "net/http", "*ServeMux.Handle")) {
 			return
@@ -349,8 +380,8 @@ func c08Routes(c *eng.Ctx, sj, getIdentity *ssa.Function) {
 				}
 				okk := false
 				how := ""
-				if f.Parent() != nil && passedToServeJSON(f) {
-					okk, how = true, "inside a literal passed to serveJSON"
+				if passedToServeJSON(f) {
+					okk, how = true, "inside a handler function passed to serveJSON"
 				} else if m.Name == "List" {
 					// HTML page: Method == GET and nil identity error
 					get, id := false, false
@@ -380,7 +411,9 @@ func c08Identity(c *eng.Ctx, f *ssa.Function) {
 	// every capability-unmarshal error is tested before another unmarshal runs or
 	// the caller is accepted (an unparsable grant is never papered over)
 	var caps []*ssa.Call
-	eng.Instrs(f, func(in ssa.Instruction) {
+	top := f
+	// (the capability lookup may live in a helper of getIdentity)
+	eng.InstrsDeep(f, func(_ *ssa.Function, in ssa.Instruction) {
 		if call, ok := in.(*ssa.Call); ok {
 			if cal := eng.Callee(&call.Call); cal != nil && cal.Origin() != nil && eng.FuncIs(cal.Origin(), "tailscale.com/tailcfg", "UnmarshalCapJSON") {
 				caps = append(caps, call)
@@ -388,6 +421,7 @@ func c08Identity(c *eng.Ctx, f *ssa.Function) {
 		}
 	})
 	for _, cc := range caps {
+		f := cc.Parent()
 		ev := saveErr(cc)
 		isTest := func(x ssa.Instruction) bool {
 			ifi, ok := x.(*ssa.If)
@@ -411,7 +445,10 @@ func c08Identity(c *eng.Ctx, f *ssa.Function) {
 		}
 		hit, path := eng.Search(f, cc, nil, isTest, func(x ssa.Instruction) bool {
 			if r, isR := x.(*ssa.Return); isR {
-				return eng.IsNilConst(eng.Origin(eng.RetVals(r)[1]))
+				if ei := errResultIndex(f); ei >= 0 {
+					return eng.IsNilConst(eng.Origin(eng.RetVals(r)[ei]))
+				}
+				return false
 			}
 			for _, o := range caps {
 				if x == ssa.Instruction(o) {
@@ -430,13 +467,15 @@ func c08Identity(c *eng.Ctx, f *ssa.Function) {
 	if len(caps) == 0 {
 		c.Undecided("R-C08-3", f, f.Pos(), "capability unmarshal calls", "none found")
 	}
+	f = top
 	for _, r := range eng.Returns(f) {
 		rv := eng.RetVals(r)
 		if !eng.IsNilConst(eng.Origin(rv[1])) {
 			continue
 		}
 		need := map[string]bool{}
-		for _, cond := range eng.FactsAt(r) {
+		// (a nil error of a helper implies what holds on every successful path of it)
+		for _, cond := range eng.FactsX(r) {
 			if v, isNil, isE := cond.ErrCheck(); isE && isNil {
 				// err is a reassigned variable: resolve through phi leaves
 				cands := []ssa.Value{v}
@@ -466,15 +505,33 @@ func c08Identity(c *eng.Ctx, f *ssa.Function) {
 			}
 		}
 		for _, k := range []string{"parse", "whois", "cap"} {
-			c.Check(need[k], "R-C08-3", f, r.Pos(), "identified-caller return [gate "+k+"]", "a caller is identified only past the nil-error edge of "+map[string]string{"parse": "ParseAddrPort", "whois": "WhoIs", "cap": "the capability unmarshal"}[k], "holding: "+eng.FactsString(r))
+			c.Check(need[k], "R-C08-3", f, r.Pos(), "identified-caller return [gate "+k+"]", "a caller is identified only past the nil-error edge of "+map[string]string{"parse": "ParseAddrPort", "whois": "WhoIs", "cap": "the capability unmarshal"}[k], "holding: "+factsStr(eng.FactsX(r)))
 		}
 		// tagged or login non-empty: cut those two positive edges -> return unreachable
-		cut := func(b *ssa.BasicBlock, i int) bool {
+		var cut func(b *ssa.BasicBlock, i int) bool
+		cut = func(b *ssa.BasicBlock, i int) bool {
 			ifi, ok := b.Instrs[len(b.Instrs)-1].(*ssa.If)
 			if !ok {
 				return true
 			}
 			cond := eng.CondOf(ifi.Cond, i == 0)
+			// the nil-error edge of a helper is open only if the helper can
+			// succeed with the two positive edges cut
+			if v, isNil, isE := cond.ErrCheck(); isE && isNil {
+				if hc, _ := eng.TupleCall(v); hc != nil {
+					if h := eng.Callee(&hc.Call); eng.IsHelper(b.Parent(), h) {
+						if ei := errResultIndex(h); ei >= 0 {
+							hit, _ := eng.Search(h, nil, cut, nil, func(x ssa.Instruction) bool {
+								hr, isR := x.(*ssa.Return)
+								return isR && nonNilAt(eng.RetVals(hr)[ei], eng.FactsAt(hr)) != eng.Yes
+							})
+							if hit == nil {
+								return false
+							}
+						}
+					}
+				}
+			}
 			if call, _, truth, isCall := cond.BoolCall(); isCall && truth && call.Call.StaticCallee() != nil && call.Call.StaticCallee().Name() == "IsTagged" {
 				return false
 			}
